@@ -283,6 +283,7 @@ func c01WorkerBatches(c *core.Ctx, rule string) {
 func C01(c *core.Ctx) {
 	c.Explanation("C01: (R1) each operator function of the no-insertion CIGAR table is interpreted on symbolic arguments (query position q, reference position r, length n, abstract sequences) and its effect must equal the SAM specification for all nine operators, for every q, r, n: positions advance by n exactly when the operator consumes query/reference, and the row is extended by seq[q:q+n], n deletions, n no-coverage marks or nothing; (R2/R3) blockToFastaRecord (getSeqFromBlock, getOneLine, flattening, flank rewrite, trim/pad) is interpreted on a bounded family of groups of one and two records (three start positions x fourteen CIGAR strings covering all operators, incl. insertions after =/X) against an independent projection of the records onto the reference (base > deletion > no coverage, conflicting bases -> N, '-' outside / 'N' between the first and last aligned base, all N with --pad); getNucFromSite on all sites of up to three symbols; (R4) groupSamRecords is interpreted against a model of the biogo reader on every flag word (12 bits quick, 16 bits thorough) and on all short record streams over two names: exactly the records with neither 0x4 nor 0x100 are kept, grouped by adjacent name, indexed 0,1,2.. in input order; (R5) window validation and trim/pad column selection (shared with C15); (R6) pool output is index re-ordered.")
 	checkArrivalOrderIndependence(c, "R7/reorder", "fastaio.WriteAlignment", "fastaio.WriteWrapAlignment")
+	c15Wrap(c) // with --wrap the rows are re-broken, not shortened
 	c.Assumption("biogo/hts parses SAM text into records (Pos 0-based, Cigar, Flags, Seq) as specified; the model of its reader API is in checker/rules/sammodel.go")
 	checkCigarTables(c, "R1", func(t cigarTable) bool { return !t.withRef })
 	// ---- R3 flattening of one column
@@ -417,7 +418,7 @@ func c01Grouping(c *core.Ctx) {
 	var rec func(cur []samRec)
 	maxLen := 3
 	if c.Tier == "thorough" {
-		maxLen = 4
+		maxLen = 5
 	}
 	rec = func(cur []samRec) {
 		streams = append(streams, append([]samRec{}, cur...))
